@@ -16,7 +16,9 @@
            further, nothing else) unless the line is an accepted enum / clause-update / undo-update
      (iv)  stream:param-order                   lines with the same request up to group order /
            spelling / blanks get the same answer
-     (v)   stream:history-dependent             a fresh instance answers count/sat/core lines alike *)
+     (v)   stream:history-dependent             a fresh instance answers count/sat/core lines alike
+     (vi)  stream:out-of-range-accepted         a count/sat/core line that is well-formed except for a
+           number outside -n..n must be answered by an error *)
 open Blocks
 
 let unhex (h : string) : string =
@@ -94,8 +96,11 @@ let num_tok (n : int) (s : string) : int list option =
     end
 
 type mini = { cmd : string; ma : int list; mv : int list option }
+(* set by mini_parse when the line is well-formed except that a number lies outside -n..n *)
+let out_of_range = ref false
 
 let mini_parse (n : int) (line : string) : mini option =
+  out_of_range := false;
   (* the documented duplicate rule: a word that is not a plain number may occur only once
      (this also rejects a repeated range token such as `count a 1..2 1..2`) *)
   let toks = split_blank line in
@@ -115,8 +120,11 @@ let mini_parse (n : int) (line : string) : mini option =
         (match nums [] r with
          | Some (got, r') when got <> [] ->
            let l = List.filter (fun x -> x <> 0) (List.concat got) in
-           if l = [] || List.exists (fun x -> abs x > n) l then None
-           else groups ((is_a k, l) :: acc) r'
+           if l = [] then None
+           else begin
+             if List.exists (fun x -> abs x > n) l then out_of_range := true;
+             groups ((is_a k, l) :: acc) r'
+           end
          | _ -> None)
       | _ -> None in
     (match groups [] rest with
@@ -246,6 +254,10 @@ let check (b : block) : verdict list =
              (match tbl with
               | Some t ->
                 (match mini_parse n e.line with
+                 | Some _ when !out_of_range ->
+                   bump "c13_lines_out_of_range";
+                   if not (is_err_text a) then
+                     add (Viol ("stream:out-of-range-accepted", Printf.sprintf "line [%s] names a feature outside 1..%d but was answered {%s}" show n (String.escaped a)))
                  | Some m ->
                    bump "c13_lines_decided_by_truth_table";
                    let exp = expected t n m in
